@@ -25,6 +25,18 @@ CLAIMED = {
         "Trusted: gmodel::GModel (acceptable-answer sets, spelling), model::neighbour. max_path_beam is only required to return a valid walk (it may end on a repeated node by design).",
         "DESIGN.md section 6, C03",
     ),
+    "C04": (
+        "seeded proptest, differential sharded vs one-pass assembly anchored to a string-level model",
+        "The crate's own sharded pipeline (msp_sequence -> per-shard filter_kmers -> compress_kmers_with_hash -> combine -> finish -> compress_graph) is run for 25 (K,P) pairs, default and generated permutations, both strandedness values, thresholds, two payload kinds and five piece containers, and compared with the one-pass pipeline and with the reference partition/payload/adjacency model in a cut- and orientation-invariant way.",
+        "Trusted: model::expected_partition, pipeline::parts_with_data (canonical k-mer sets + payload), gmodel::table_w.",
+        "DESIGN.md section 6, C04",
+    ),
+    "C08": (
+        "seeded proptest; functional-dependency check k-mer -> bucket, substring/flank equality",
+        "For every read set (reads and their reverse complements), P in 2..8, k>p, default and generated permutations, rc mode on/off and five piece containers: pieces re-tile the read exactly, carry the true flanking bases, and the map k-mer -> bucket over all occurrences (both orientations in rc mode) is a function; the bucket's p-mer lies in every k-mer of its piece.",
+        "Trusted: plain-string tiling/flank computation in props/c08.rs. Permutation tables are real Fisher-Yates permutations derived from a generated seed.",
+        "DESIGN.md section 6, C08",
+    ),
     "C05": (
         "seeded proptest against a string-level grouping model; pass count forced through the verif_hooks feature",
         "Generated read sets with labels and arbitrary boundary extensions, five read containers, both strandedness values, report_all on/off, CountFilter/CountFilterSet for n from 0 to above the maximum count plus a recording summarizer that exposes grouping order; the memory-unit hook makes 1..256 bucket passes happen on small inputs and the pass counter proves it. Result map (iteration and get, present and absent k-mers), all_kmers and summaries are compared with the model for every pass count.",
